@@ -13,8 +13,17 @@ Inductive e2e :=
 | E2Ok (sub : option string)      (* 2xx / OK; value of the header the finalizer fills with Subject.ID *)
 | E2Denied.                       (* any other answer *)
 
-Record step := { st_req : request; st_seen : list seen1; st_res : result; st_e2e : e2e }.
-Record case := { c_chain : list authn; c_steps : list step }.
+(** [st_rule]: which of the case's rules handled the request *)
+Record step := { st_rule : nat; st_req : request; st_seen : list seen1; st_res : result; st_e2e : e2e }.
+
+(** the rules of the case were created by one rule factory from one set of
+    prototypes, in some order; each is given as its steps resolved against the
+    prototypes: (type with the rule-level settings applied, flag of the prototype,
+    rule-level flag).  That the flag in force for a step is a function of these two
+    alone — whatever other rules were created before or after from the same
+    prototypes — is theorem [C04_flag_history_independent]; here it is what the
+    observed IsFallbackOnErrorAllowed() of every rule's steps is compared with. *)
+Record case := { c_rules : list (list authn); c_steps : list step }.
 
 (* ------------------------------------------------------------------ what the property talks about *)
 
@@ -60,9 +69,12 @@ Definition corr_step (ca : list authn) (s : step) : bool :=
   list_eqb Nat.eqb (seq 0 n) (map s_pos (st_seen s)) &&
   res_cls_eqb r (st_res s) && e2e_ok r (st_e2e s).
 
+Definition on_rule (f : list authn -> step -> bool) (c : case) (s : step) : bool :=
+  match nth_error (c_rules c) (st_rule s) with Some ca => f ca s | None => false end.
+
 Definition check (c : case) : verdict :=
-  {| v_corr := forallb (corr_step (c_chain c)) (c_steps c);
-     v_prop := forallb (prop_step (c_chain c)) (c_steps c);
+  {| v_corr := forallb (on_rule corr_step c) (c_steps c);
+     v_prop := forallb (on_rule prop_step c) (c_steps c);
      v_guards := [] |}.
 
 (* short constructors for the generated case files *)
@@ -71,5 +83,5 @@ Definition tk j i := {| t_jwt := j; t_intro := i |}.
 Definition rq a xt qu b c x sw :=
   {| q_auth := a; q_xtok := xt; q_query := qu; q_body := b; q_cookie := c; q_xsess := x; q_sw := sw |}.
 Definition sn p fb h o := {| s_pos := p; s_fb := fb; s_hit := h; s_out := o |}.
-Definition stp q seen res e := {| st_req := q; st_seen := seen; st_res := res; st_e2e := e |}.
-Definition cs ch steps := {| c_chain := ch; c_steps := steps |}.
+Definition stp k q seen res e := {| st_rule := k; st_req := q; st_seen := seen; st_res := res; st_e2e := e |}.
+Definition cs rules steps := {| c_rules := rules; c_steps := steps |}.
